@@ -100,8 +100,12 @@ func (es *EndpointShards) CopyEndpoints(portMap map[string]int, ports sets.Set[i
 	es.RLock()
 	defer es.RUnlock()
 	res := map[int][]*IstioEndpoint{}
-	for _, v := range es.Shards {
-		for _, ep := range v {
+	// Walk the shards in key order, like snapshotShards does for EDS: the callers keep the order of the endpoints (the
+	// addresses of a headless service in the NDS name table, its per-instance listeners, STRICT_DNS/STATIC cluster
+	// endpoints), so with several shards - the service exists in several clusters - map iteration order would change
+	// what is generated for the same state and proxy from one push to the next.
+	for _, k := range es.Keys() {
+		for _, ep := range es.Shards[k] {
 			// use the port name as the key, unless LegacyClusterPortKey is set and takes precedence
 			// In EDS we match on port *name*. But for historical reasons, we match on port number for CDS.
 			var portNum int
